@@ -549,6 +549,13 @@ pub mod harness {
         if ex.deadlock {
             return Some(format!("deadlock: the caller is left blocked; blocked set {:?}", ex.blocked));
         }
+        // the model main acts (captures, single-branch steps, handler, the end marker) only when no thread it spawned is alive
+        if let Some(o) = ex.ops.iter().find(|o| o.thread == 0 && !o.live_others.is_empty()) {
+            return Some(format!(
+                "the caller performed `{}` while threads {:?} it spawned were still running (the caller must continue only after every thread of the step has finished)",
+                o.site, o.live_others
+            ));
+        }
         if !vrt::steps_monotone(&ex.log) {
             return Some("an event of an earlier step was observed after an event of a later step (step barrier broken)".to_string());
         }
